@@ -22,7 +22,7 @@ LINE_FUNCS = ['LinearLayerTT.forward', 'LinearLayerTT.__init__']
 def cases(tier, seed):
     rng = random.Random('C20|%d' % seed)
     cs = []
-    n = 500 if tier == 'quick' else 10000
+    n = 2500 if tier == 'quick' else 40000
     for i in range(n):
         d = rng.randint(1, 4)
         pool = (1, 2, 3, 4, 5) if d <= 3 else (1, 2, 3)
